@@ -93,6 +93,7 @@ theorem DG.wf.frag_offset {d : DG} (w : d.wf) {p : Nat × Nat} (hp : p ∈ d.pie
   have hal := w.aligned p hp
   have := w.end_le hp
   have := w.size
+  simp only [hdrSize] at this
   simp only [extractOffset, fragPkt, mkFragPkt]
   omega
 
@@ -227,13 +228,22 @@ theorem isComplete_abs {d : DG} (w : d.wf) (e : Ep) : isComplete (absStream d e)
 /-! ### `allocate_pdu` -/
 
 /-- **reassembled_payload**: when every piece is held the concatenation loop succeeds and yields the original payload -/
-theorem allocBuf_abs {d : DG} (w : d.wf) (e : Ep) (hall : d.complete e = true) :
+theorem allocBuf_abs {d : DG} (w : d.wf) (e : Ep) (hall : d.complete e = true)
+    (hfirst : hdrSize (e.first.getD {}) = hdrSize d.hdr) :
     allocBuf (absStream d e) = some d.payload := by
   have hmem : ∀ x ∈ d.pieces, decide (x ∈ e.got) = true := by
     simpa [DG.complete, List.all_eq_true] using hall
   have hheld : held d e = d.pieces := filter_eq_self_of_all _ _ hmem
+  have hany : d.pieces.any (isLast d) = true := by
+    have := piecesFrom_any_last 0 d.lens w.lens_ne
+    simpa [DG.pieces, isLast, w.sum] using this
+  have hsz := w.size
+  have h2 : (absStream d e).total = d.payload.length := by simp [absStream, hheld, hany]
+  have h1 : (absStream d e).first = e.first.getD {} := rfl
   have := allocLoop_pieces d.payload 0 d.lens [] (by rw [w.sum]; omega)
-  simp only [allocBuf, absStream, hheld]
+  unfold allocBuf
+  rw [h1, h2, hfirst, if_neg (by omega)]
+  simp only [absStream, hheld]
   unfold DG.pieces fragOf
   rw [this, w.sum]
   simp [slice_all]
